@@ -19,7 +19,7 @@ RULE = (
     "cell at every update return and every saved frame. non-trivial = run with non-zero injected "
     "current in which >= 10 states were checked; distinct = distinct simulation spec"
 )
-REQUIRED_COUNTERS = ["cell_balance_checks", "terminal_total_checks", "states_with_injection", "frames_checked", "accepted_balanced_assignments"]
+REQUIRED_COUNTERS = ["cell_balance_checks", "terminal_total_checks", "states_with_injection", "frames_checked", "accepted_balanced_assignments", "terminal_membership_checks", "remeshed_device_runs"]
 CASE_TIMEOUT = {"quick": 600, "thorough": 1500}
 ASSUMPTIONS = [
     "terminal membership of boundary edges is taken from Device.terminal_info() (verified independently in C07)",
@@ -33,7 +33,7 @@ def gen_cases(tier, seed):
     n = 16 if tier == "quick" else 240
     cases = []
     Akinds = ["zero", "uniform", "ramp", "osc", "uniform_float"]
-    Ikinds = ["integers", "decimal", "callable", "const"]
+    Ikinds = ["integers", "decimal", "callable", "const", "pulse"]
     unit_sets = [("um", "mT", "uA"), ("nm", "uT", "nA"), ("mm", "T", "mA"), ("um", "uT", "uA")]
     for k in range(n):
         nt = [2, 3, 4][k % 3]
@@ -55,7 +55,13 @@ def gen_cases(tier, seed):
         drive = {"A": S.field_spec(rng, dev, o, Ak), "currents": S.current_spec(rng, dev, o, Ik)}
         if rng.random() < 0.25:
             drive["epsilon"] = {"kind": str(rng.choice(["const", "spatial"])), "value": 0.7}
-        cases.append({"device": dev, "options": o, "drive": drive, "monitors": ["charge"], "cost": 40 if scr else 6 + 4 * (size == "medium") + 30 * (size == "large")})
+        case = {"device": dev, "options": o, "drive": drive, "monitors": ["charge"], "cost": 40 if scr else 6 + 4 * (size == "medium") + 30 * (size == "large")}
+        if k % 6 == 3:
+            # the same Device object is meshed, used, and meshed again with another density before the run
+            case["remesh"] = {"factor": float(rng.choice([0.6, 1.5]))}
+        if k % 7 == 2 and not scr:
+            o["skip_time"] = 0.1 * o["solve_time"]
+        cases.append(case)
     return cases
 
 
@@ -113,7 +119,7 @@ def run_case(spec):
         _frames_check(out)
         out.pop("_time_of_psi")
         out["violations"] = out["violations"] + mon.V[nV:]
-        for k in ("cell_balance_checks", "terminal_total_checks", "states_checked", "states_with_injection"):
+        for k in ("cell_balance_checks", "terminal_total_checks", "states_checked", "states_with_injection", "terminal_membership_checks"):
             out["counters"][k] = mon.C.get(k, 0)
         exc = rr.exception
         cur = spec["drive"].get("currents", {})
@@ -131,7 +137,24 @@ def run_case(spec):
             out["status"] = "harness_error"
             out["error"] = "unexpected exception in C01 workload: " + repr(exc)[:300]
 
-    out = S.run_sim_case(spec, "C01", extra_listeners=[ti], post=post)
-    out["classes"] = S.classes_of(spec)
+    kw = {}
+    if spec.get("remesh"):
+        dev, why = zoo.try_build_device(spec["device"])
+        if dev is None:
+            return {"violations": [], "counters": {"refused_mesh": 1}, "classes": ["refused"], "nontrivial": False}
+        _ = dev.terminal_info()  # used once with the first mesh
+        m = spec["device"]["mesh"]
+        try:
+            dev.make_mesh(max_edge_length=m["max_edge_length"] * spec["remesh"]["factor"], smooth=m.get("smooth", 0))
+        except ValueError as exc:
+            if "Malformed Voronoi" in str(exc):
+                return {"violations": [], "counters": {"refused_mesh": 1}, "classes": ["refused"], "nontrivial": False}
+            raise
+        kw["device"] = dev
+    out = S.run_sim_case(spec, "C01", extra_listeners=[ti], post=post, **kw)
+    if spec.get("remesh"):
+        out.setdefault("counters", {})["remeshed_device_runs"] = 1
+    if "classes" not in out:
+        out["classes"] = S.classes_of(spec) + (["remeshed"] if spec.get("remesh") else []) + (["thermalised"] if spec["options"].get("skip_time") else [])
     out["nontrivial"] = out["counters"].get("states_with_injection", 0) >= 10
     return out
